@@ -5,6 +5,7 @@ import (
 	"encoding/json"
 	"fmt"
 	"io"
+	"reflect"
 	"strings"
 
 	redact "github.com/cockroachdb/redact"
@@ -12,6 +13,18 @@ import (
 )
 
 func init() {
+	replayers["C06/after-classified"] = func(c *Ctx, raw json.RawMessage) string {
+		var cs struct {
+			C, H int
+			Verb string
+		}
+		json.Unmarshal(raw, &cs)
+		rfmt.VerifResetSafeTypes()
+		dblSafeRegister()
+		redact.RegisterSafeType(reflect.TypeOf(regIntT(0)))
+		defer rfmt.VerifResetSafeTypes()
+		return c06After(cs.C, cs.H, cs.Verb)
+	}
 	checks["C06"] = checkC06
 	rules["C06"] = "every value of the universe and every scripted Format/SafeFormat body of <=3 ops (incl. re-entrant SafePrinter.Print/Printf, fmt.Fprintf on the state, nested scripted values, panics) under every wrapper word of length 1-3 over {Safe,Unsafe} x directives, with and without an error hook; envelope-coverage oracle + character comparison with fmt / with the unwrapped rendering; distinct = distinct outputs"
 	replayers["C06/values"] = func(c *Ctx, raw json.RawMessage) string {
@@ -270,7 +283,94 @@ func c06Script(cs c06ScriptCase, seen func(string)) (string, string) {
 	return "", ""
 }
 
+// --- after a classified element: an element that is safe for two reasons at once, or any other classified
+// element, printed at depth > 0, and then an Unsafe(x) later in the same call and in the next call (the printer
+// comes back from the pool): the override an element switched on must be switched off exactly once.
+
+var c06Classified = []struct {
+	Name string
+	V    interface{}
+}{
+	{"SafeValue + registered", dblSafeT(7)},
+	{"SafeValue + registered Stringer", dblSafeStrT{"d"}},
+	{"SafeValue", safeT("p")},
+	{"Safe(x)", redact.Safe("s")},
+	{"Safe(SafeValue + registered)", redact.Safe(dblSafeT(1))},
+	{"Unsafe(SafeValue + registered)", redact.Unsafe(dblSafeT(1))},
+	{"SafeFormatter", safeFmtT{"k", "v"}},
+	{"registered only", regIntT(3)},
+	{"Safe(Unsafe-in-slice)", redact.Safe([]interface{}{redact.Unsafe("u")})},
+}
+
+var c06Holders = []struct {
+	Name string
+	Mk   func(x interface{}) interface{}
+}{
+	{"[]interface{}{x}", func(x interface{}) interface{} { return []interface{}{x} }},
+	{"[]interface{}{x,x}", func(x interface{}) interface{} { return []interface{}{x, x} }},
+	{"map value", func(x interface{}) interface{} { return map[string]interface{}{"k": x} }},
+	{"exported field", func(x interface{}) interface{} { return fpEE{x, 1} }},
+	{"unexported field", func(x interface{}) interface{} { return fpUU{x, 1} }},
+	{"pointer to struct", func(x interface{}) interface{} { return &fpEE{x, x} }},
+	{"top level", func(x interface{}) interface{} { return x }},
+	{"typed slice", func(x interface{}) interface{} {
+		if d, ok := x.(dblSafeT); ok {
+			return []dblSafeT{d, d}
+		}
+		return [1]interface{}{x}
+	}},
+	{"map key", func(x interface{}) interface{} {
+		if d, ok := x.(dblSafeT); ok {
+			return map[dblSafeT]int{d: 1}
+		}
+		return map[string]interface{}{"z": x}
+	}},
+}
+
+func c06After(ci, hi int, verb string) string {
+	h := c06Holders[hi].Mk(c06Classified[ci].V)
+	desc := fmt.Sprintf("%s in %s", c06Classified[ci].Name, c06Holders[hi].Name)
+	var a, b, c2 redact.RedactableString
+	if pv, pan := recoverTo(func() {
+		a = redact.Sprintf(verb+" "+verb, h, redact.Unsafe("hunter2"))
+		b = redact.Sprintf(verb, redact.Unsafe("hunter2"))
+		c2 = redact.Sprintf("%v|%v", redact.Unsafe([]interface{}{h, "x"}), "tail")
+	}); pan {
+		return fmt.Sprintf("%s: panic %v", desc, pv)
+	}
+	own := redact.Sprintf(verb, h)
+	if !strings.HasPrefix(string(a), string(own)+" ") || !allEnveloped([]byte(a)[len(own)+1:]) {
+		return fmt.Sprintf("Sprintf(%q, %s, Unsafe(\"hunter2\")) = %q: the Unsafe operand after it must lie inside envelopes", verb+" "+verb, desc, a)
+	}
+	if !allEnveloped([]byte(b)) {
+		return fmt.Sprintf("after printing %s, the next call Sprintf(%q, Unsafe(\"hunter2\")) = %q: must lie inside envelopes", desc, verb, b)
+	}
+	if i := strings.LastIndex(string(c2), "|"); i < 0 || !allEnveloped([]byte(c2)[:i]) || !allEnveloped([]byte(c2)[i+1:]) {
+		return fmt.Sprintf("Sprintf(\"%%v|%%v\", Unsafe([]interface{}{%s, \"x\"}), \"tail\") = %q: both operands must lie inside envelopes", desc, c2)
+	}
+	return ""
+}
+
 func checkC06(c *Ctx) {
+	rfmt.VerifResetSafeTypes()
+	dblSafeRegister()
+	redact.RegisterSafeType(reflect.TypeOf(regIntT(0)))
+	defer rfmt.VerifResetSafeTypes()
+	c.Section("C06/after-classified", map[string]interface{}{"classified": len(c06Classified), "holders": len(c06Holders), "verbs": c06Verbs, "workers": 1}, 1, func(_ int, w *Worker) {
+		// one worker: the "next call" part relies on the pool handing the same printer back
+		for ci := range c06Classified {
+			for hi := range c06Holders {
+				for _, verb := range c06Verbs {
+					w.Eval()
+					if dt := c06After(ci, hi, verb); dt != "" {
+						w.Fail("after-classified", map[string]interface{}{"C": ci, "H": hi, "Verb": verb}, dt)
+					}
+				}
+			}
+		}
+		w.Seen(1)
+		w.Seen(2)
+	})
 	u := universe()
 	sp := midDirectives()
 	nw := 6 // words of length <= 2
